@@ -1,1 +1,56 @@
-/- C14 — theorems (placeholder until the property is built). -/
+/-
+  C14 — Occlusion/mismatch filling touches only flagged pixels, fills from valid ones.
+-/
+import PandoraModel.Model.Interp
+import PandoraModel.Generated.Interp
+import PandoraModel.Generated.Constants
+
+namespace Pandora.C14
+open Pandora Pandora.Interp Pandora.Flags
+
+/-! ### 1. The data of the kernels in the source are the data of the model (finite: `decide`) -/
+
+/-- the direction tables of the three kernels that scan are those of the model -/
+theorem source_dirs :
+    Generated.Interp.dirsMismatchMcCnnDoubled = dirs16
+    ∧ Generated.Interp.dirsMismatchSgm = dirs8 ∧ Generated.Interp.dirsOcclusionSgm = dirs8 := by decide
+
+/-- the flag updates, the tested constants, the loop bounds and the order of the passes are those the
+    model follows -/
+theorem source_flag_ops :
+    Generated.Interp.flagOps =
+      [("interpolate_occlusion_mc_cnn",
+          [("-", "PANDORA_MSK_PIXEL_OCCLUSION", true), ("+", "PANDORA_MSK_PIXEL_FILLED_OCCLUSION", true),
+           ("-", "PANDORA_MSK_PIXEL_OCCLUSION", true), ("+", "PANDORA_MSK_PIXEL_FILLED_OCCLUSION", true)]),
+       ("interpolate_mismatch_mc_cnn",
+          [("-", "PANDORA_MSK_PIXEL_MISMATCH", false), ("+", "PANDORA_MSK_PIXEL_FILLED_MISMATCH", false)]),
+       ("interpolate_mismatch_sgm",
+          [("-", "PANDORA_MSK_PIXEL_MISMATCH", false), ("+", "PANDORA_MSK_PIXEL_OCCLUSION", false),
+           ("-", "PANDORA_MSK_PIXEL_MISMATCH", false), ("+", "PANDORA_MSK_PIXEL_FILLED_MISMATCH", false)]),
+       ("interpolate_occlusion_sgm",
+          [("-", "PANDORA_MSK_PIXEL_OCCLUSION", false), ("+", "PANDORA_MSK_PIXEL_FILLED_OCCLUSION", false)])]
+    ∧ Generated.Interp.tested =
+      [("interpolate_occlusion_mc_cnn",
+          ["PANDORA_MSK_PIXEL_OCCLUSION", "PANDORA_MSK_PIXEL_INVALID", "PANDORA_MSK_PIXEL_INVALID"]),
+       ("interpolate_mismatch_mc_cnn", ["PANDORA_MSK_PIXEL_MISMATCH", "PANDORA_MSK_PIXEL_INVALID"]),
+       ("interpolate_mismatch_sgm", ["PANDORA_MSK_PIXEL_MISMATCH", "PANDORA_MSK_PIXEL_OCCLUSION"]),
+       ("interpolate_occlusion_sgm", ["PANDORA_MSK_PIXEL_OCCLUSION"]),
+       ("find_valid_neighbors", ["PANDORA_MSK_PIXEL_INVALID"])]
+    ∧ Generated.Interp.pathRanges =
+      [("interpolate_occlusion_mc_cnn", []), ("interpolate_mismatch_mc_cnn", [["1", "max_path_length"]]),
+       ("interpolate_mismatch_sgm", []), ("interpolate_occlusion_sgm", []),
+       ("find_valid_neighbors", [["max_path_length"]])]
+    ∧ Generated.Interp.passOrder =
+      [("McCnnInterpolation", ["interpolate_occlusion_mc_cnn", "interpolate_mismatch_mc_cnn", "mask_border"]),
+       ("SgmInterpolation", ["interpolate_mismatch_sgm", "interpolate_occlusion_sgm"])] := by decide
+
+/-- the six constants the kernels use have the documented values the model uses -/
+theorem source_constants :
+    Generated.Constants.PANDORA_MSK_PIXEL_INVALID = pixelInvalid
+    ∧ Generated.Constants.PANDORA_MSK_PIXEL_OCCLUSION = occlusion
+    ∧ Generated.Constants.PANDORA_MSK_PIXEL_MISMATCH = mismatch
+    ∧ Generated.Constants.PANDORA_MSK_PIXEL_FILLED_OCCLUSION = filledOcclusion
+    ∧ Generated.Constants.PANDORA_MSK_PIXEL_FILLED_MISMATCH = filledMismatch
+    ∧ Generated.Constants.PANDORA_MSK_PIXEL_LEFT_NODATA_OR_BORDER = leftNodataOrBorder := by decide
+
+end Pandora.C14
